@@ -55,6 +55,10 @@ def gen_case(rng):
         th = np.where(rng.random(n) < 0.5, 0.0, th)
     th = np.where((np.abs(th) > 0) & (np.abs(th) < 1e-2), 0.0, th)     # keep th +- h out of the exp cut-off band too
     th = np.clip(th, lo, hi)
+    # ... and out of the band modulo a full turn: the library stores joint values wrapped to (-2pi, 2pi), so a sample a hair beyond
+    # +-2pi is evaluated at a joint value of 1e-7 - inside the cut-off.  Move such values 0.02 rad towards zero.
+    d2pi = np.abs(((th + PI) % (2 * PI)) - PI)
+    th = np.where((np.abs(th) > PI) & (d2pi < 1e-2), th - np.sign(th) * 2e-2, th)
     prefix = []
     for _ in range(int(rng.choice([0, 0, 1, 1, 2, 3]))):
         k = gen.pick(rng, ["move", "setArbitraryHome", "setArbitraryHome", "restoreOriginalEE"])
